@@ -1008,7 +1008,7 @@ def density_function(ctx, rng, quick):
         what = None
         if len(ldf) != nb or len(edges) != nb + 1:
             what = f"lengths {len(ldf)}, {len(edges)} for n_bins={nb}"
-        elif ldf[0] != 0 or np.any(np.diff(ldf) < 0) or ldf[-1] > 1 + 1e-12:
+        elif ldf[0] != 0 or np.any(np.diff(ldf) < -1e-12) or ldf[-1] > 1 + 1e-12:   # float sums
             what = f"not a cumulative distribution: {ldf.tolist()}"
         else:
             w = (edges[-1] - edges[0]) / nb
